@@ -107,9 +107,12 @@ pub fn free_run(seed: u64, threads: usize, iters: usize, trees: usize, delay_per
                                 }
                                 let target = if rng.chance(1, 8) { Some(FrameId(rng.below(frames >> order) << order)) } else { None };
                                 match catch(|| a.get(target, cfg.request(order, class, slot))) {
-                                    Ok(Ok((f, _))) => {
+                                    Ok(Ok((f, got))) => {
                                         ok_gets.fetch_add(1, Ordering::Relaxed);
                                         let b = Block { frame: f.0, order };
+                                        if !cfg.class_permitted(class, got.0, order) {
+                                            viols.lock().unwrap().push(("C13", format!("free-running: requested class {class}, allocation of order {order} reports class {}, which the policy rates neither match nor stealable", got.0)));
+                                        }
                                         if b.end() > frames || f.0 % b.len() != 0 {
                                             viols.lock().unwrap().push(("C01", format!("free-running: get returned frame {} order {order} misaligned / out of range", f.0)));
                                             return;
@@ -223,6 +226,7 @@ pub fn run_free(args: &Args) -> Report {
                     "C01" => &["C01"],
                     "C03" => &["C03"],
                     "C04" => &["C04"],
+                    "C13" => &["C13"],
                     _ => &["C09"],
                 }, msg: m });
             }
